@@ -5,6 +5,7 @@ package core
 import (
 	"context"
 	"errors"
+	"fmt"
 
 	"github.com/glebziz/fs_db"
 	"github.com/glebziz/fs_db/internal/model"
@@ -313,4 +314,48 @@ func VerifRaceSelfTest2() {
 	_, _ = reg.Get(ctx, verifT1)
 	_, _ = reg.Delete(ctx, verifT1)
 	nd.JoinAll()
+}
+
+// ---------- C14: every version handed to DeleteFilesAsync reaches the physical deletion, once ----------
+
+type verifQueueSender struct{ q []wpool.Event }
+
+func (s *verifQueueSender) Send(ctx context.Context, event wpool.Event) { s.q = append(s.q, event) }
+
+// VerifH14c: batches around the cleaner's chunk size (1000): all queued events are run after
+// DeleteFilesAsync has returned (as the worker pool does); every content id must be asked for
+// deletion exactly once.
+func VerifH14c() {
+	sizes := []int{0, 1, 999, 1000, 1001, 2000, 2001}
+	n := sizes[nd.Choice("batch", len(sizes))]
+	nd.Bound("H14c.max_batch", 2001)
+	env := &verifCleanEnv{}
+	snd := &verifQueueSender{}
+	cl := cleaner.New(nil, verifNoContent{}, env, env, verifNoDir{}, verifNoFile{}, snd, txrepo.New())
+	files := make([]model.File, n)
+	for i := range files {
+		files[i] = model.File{Key: "k", TxId: verifT1, ContentId: fmt.Sprintf("content-%04d", i), Seq: sequence.Seq(i + 1)}
+	}
+	ctx := context.Background()
+	cl.DeleteFilesAsync(ctx, files)
+	want := (n + 999) / 1000
+	nd.Assert(len(snd.q) == want, "H14c.one-event-per-chunk")
+	for _, e := range snd.q {
+		nd.Assert(e.Fn(ctx) == nil, "H14c.event-ok")
+	}
+	nd.Assert(len(env.asked) == n, "H14c.every-file-deleted-once-count")
+	if len(env.asked) == n {
+		seen := make(map[string]int, n)
+		for _, id := range env.asked {
+			seen[id]++
+		}
+		okAll := true
+		for i := range files {
+			if seen[files[i].ContentId] != 1 {
+				okAll = false
+			}
+		}
+		nd.Assert(okAll, "H14c.every-file-deleted-exactly-once")
+	}
+	nd.Reach("H14c.end")
 }
